@@ -189,6 +189,13 @@ def make_options(rng, kind, data, ns_min=0):
         o["dotColor"] = o["linkColor"] = o["labelBgColor"] = list(COLORS)
     elif colkind == "func":
         o["dotColor"] = "FUNC"
+    # every colour option can be a constant, a list or a function of the datum
+    for key in ("linkColor", "labelBgColor", "labelTextColor", "borderColor"):
+        r = rng.random()
+        if r < 0.15:
+            o[key] = "FUNC"
+        elif r < 0.3:
+            o[key] = list(COLORS[rng.randint(0, 3):])
     if rng.random() < 0.3 and len(data) >= 1:
         times = [d["time"] for d in data]
         if kind == "linear":
@@ -203,8 +210,9 @@ def make_options(rng, kind, data, ns_min=0):
 def realise_options(o, kind):
     o = copy.deepcopy({k: v for k, v in o.items()})
     o["scale"] = LinearScale() if kind == "linear" else TimeScale()
-    if o.get("dotColor") == "FUNC":
-        o["dotColor"] = lambda d: COLORS[d["id"] % len(COLORS)]
+    for key in ("dotColor", "linkColor", "labelBgColor", "labelTextColor", "borderColor"):
+        if o.get(key) == "FUNC":
+            o[key] = (lambda kk: (lambda d: COLORS[(d["id"] + len(kk)) % len(COLORS)]))(key)
     return o
 
 
@@ -341,7 +349,7 @@ D_SPANS = ["zero", "ms7", "subsec", "s1", "day", "monthend", "leap", "yearend", 
 D_OPTS = ["omitted", "empty", "partial"]
 D_DIRS = ["up", "down", "left", "right"]
 D_ALGS = ["overlap", "simple", "none"]
-D_BOUNDS = ["none", "max"]
+D_BOUNDS = ["none", "max", "zero"]
 
 
 def descriptors():
@@ -430,6 +438,8 @@ def concretise(desc, rng):
         lab = {"algorithm": desc["alg"]}
         if desc["bounds"] == "max":
             lab["maxPos"] = rng.choice([200, 360])
+        elif desc["bounds"] == "zero":
+            lab["minPos"] = lab["maxPos"] = rng.choice([0, 120])       # an empty band: both bounds given and equal
         opts = {"direction": desc["dir"], "labella": lab, "showTicks": bool(desc["ticks"])}
         if desc["ttype"] == "num":
             opts["scale"] = "LINEAR"
@@ -496,6 +506,12 @@ def fixed_config(name):
     if name == "c3":
         data = [{"time": 3.5 * i, "width": 30, "text": "n%d" % i} for i in range(6)]
         return data, {"scale": "LINEAR", "direction": "left"}
+    if name == "c5":
+        data = [{"time": dt.datetime(2001, 5, 1 + 2 * i), "width": 45, "text": "e%d" % i} for i in range(7)]
+        return data, {"domain": [dt.datetime(2001, 4, 1), dt.datetime(2001, 7, 1)], "direction": "down"}
+    if name == "c6":
+        data = [{"time": dt.datetime(2010, 1, 1) + dt.timedelta(days=40 * i), "width": 45, "text": "f%d" % i} for i in range(9)]
+        return data, {"domain": [dt.datetime(2009, 6, 1), dt.datetime(2011, 6, 1)], "initialWidth": 600}
     if name == "c4":
         data = [{"time": dt.datetime(2020, 2, 27) + dt.timedelta(hours=7 * i), "width": 60} for i in range(12)]
         return data, {"direction": "up", "labella": {"maxPos": 300, "lineSpacing": 9, "nodeSpacing": 5, "stubWidth": 3}, "layerGap": 30}
@@ -512,6 +528,11 @@ def random_config(seed):
             opts["labella"].update(rng.choice([{"lineSpacing": 0}, {"lineSpacing": 7}, {"nodeSpacing": 6}, {"stubWidth": 4, "density": 0.6}]))
     if rng.random() < 0.3:
         opts["layerGap"] = rng.choice([20, 40])
+    if rng.random() < 0.4:
+        ts = [as_datetime(x["time"]) for x in data]
+        opts["domain"] = [min(ts) - dt.timedelta(days=rng.choice([1, 30])), max(ts) + dt.timedelta(days=rng.choice([2, 90]))]
+    if rng.random() < 0.3:
+        opts["initialWidth"] = rng.choice([500, 700])
     return data, opts
 
 
@@ -583,7 +604,7 @@ def play_timelines(h, seed):
 
 def random_timelines_history(rng):
     ids = [1, 2, 3, 4][:rng.randint(2, 4)]
-    cfgs = ["c1", "c2", "c3", "c4", "r1", "r2", "r3", "r4"]
+    cfgs = ["c1", "c2", "c3", "c4", "c5", "c6", "r1", "r2", "r3", "r4"]
     h = []
     built = set()
     for _ in range(rng.randint(4, 14)):
